@@ -62,6 +62,13 @@ CHECKS = {
         note="Trusted: stubs/expr_tree.h (std::vector as a fixed-capacity array, std::variant as a tagged struct with std::visit as 16-way dispatch, shared_ptr as raw pointer without reference counting, type_t/symbol_t/StringIndex/position_t as identities, frame_t::resolve as a table); induction over tree height (meta-step); children of parsed trees are never empty; double constants are not NaN. Not under contract: print/str ('equal implies equal text'), type_t::subst/rename, kinds built by callbacks other than expr_unary/binary/ternary/nary are covered by the general get_size statement only.",
         technique="one-level induction steps on sliced real code with ghost-table contracts for the recursive calls, assume/call/assert harnesses in CBMC (mode H); generated (factory, kind) table from parser.y; native replay of the laws on parsed expressions",
     ),
+    "C06": dict(
+        category="proof",
+        text="Kernel of the statement: the position arithmetic between the lexer and error_t. (A, unbounded) position_index_t::find - both overloads - is extracted from src/position.cpp to C on every run, the loop invariant and decreases clause are injected at its loop, and the function contracts (the result r satisfies lines[r].position <= p < lines[r+1].position with the window borders as -inf/+inf; frame: nothing assigned; exception iff the table is empty) are enforced with goto-instrument --dfcc --apply-loop-contracts on a table of symbolic length <= 2^31; lemma: with a sorted table that entry is THE last one at or before p. (B) the REAL line_t, position_index_t::add (appends, refuses a smaller position, keeps the table sorted, earlier entries unchanged), PositionTracker::setPath (both), increment, newline, the YY_USER_ACTION text of lexer.l, ExpressionBuilder::add_position, AbstractBuilder::set_position, Document::add_position / find_position / add_error / add_warning and the operands of error_t::str are executed on arbitrary tracker states and arbitrary tables: each operation's effect on (line, offset, position, path) and on the table is exactly the statement's bookkeeping (token location = [position, position+yyleng); a new line registers its first character; a new block starts one position after everything of the previous block; start/end of a diagnostic are the table entries of the lines containing position.start/end; columns are offsets from the line starts, unknown iff a position precedes its line start). Composition (bounded): a token of a block, after an arbitrary history and followed by a later block, yields a diagnostic with that block's path, the token's line within the block and the token's columns, start <= end.",
+        design_ref="DESIGN.md section 4, C06",
+        note="Kernel only. NOT decided: that the generated flex scanner calls YY_USER_ACTION once per token and tracker.newline once per consumed line break (only the YY_USER_ACTION text is checked); XPath construction and per-block setPath calls in xmlreader.cpp (libxml2); that the type checker attaches the causing node's position to each diagnostic; the fault-injection half of the statement. Route C for find() rewrites the vector to pointer+size and the reference result to an index (rewrites logged). Part B: vectors of capacity 8 with <= 6 symbolic entries; block lemma bounded (<= 4 steps). tracker.position is assumed not to wrap (C15).",
+        technique="CBMC function contracts + loop contracts (invariant, decreases) enforced by goto-instrument --dfcc on the C extraction of find(); assume/call/assert harnesses on the sliced C++ members; one bounded composition lemma; native replay through parse_XML_buffer",
+    ),
 }
 
 NOT_APPLICABLE = {
